@@ -598,6 +598,48 @@ theorem keyed_list_later_wins (n : Nat) (xa xb : List Val) (p : TPath) (ix : Ind
 example : (mergeYaml 1 (.seq [.str "vol:/data", .str "/cache"]) (.seq [.str "./src:/data:ro"]) ["services", "s", "volumes"]).bind
     (fun m => enforce m ["services", "s", "volumes"]) = .ok (.seq [.str "./src:/data:ro", .str "/cache"]) := by rfl
 
+/-- the `KEY=VALUE` strings a mapping entry `k: v` is converted to all carry the key `k` (for a key without `=`) -/
+theorem entryStrs_key (k : String) (v : Val) (hk : ∀ c ∈ k.toList, c ≠ '=') : ∀ s ∈ entryStrs k v, kvKey s = k := by
+  intro s hs
+  cases v with
+  | null => simp only [entryStrs, List.mem_singleton] at hs; rw [hs]; exact kvKey_bare k hk
+  | seq xs =>
+    simp only [entryStrs, List.mem_map] at hs
+    obtain ⟨x, _, rfl⟩ := hs
+    exact kvKey_entry k _ hk
+  | bool b => simp only [entryStrs, List.mem_singleton] at hs; rw [hs]; exact kvKey_entry k _ hk
+  | int i => simp only [entryStrs, List.mem_singleton] at hs; rw [hs]; exact kvKey_entry k _ hk
+  | float f => simp only [entryStrs, List.mem_singleton] at hs; rw [hs]; exact kvKey_entry k _ hk
+  | str t => simp only [entryStrs, List.mem_singleton] at hs; rw [hs]; exact kvKey_entry k _ hk
+  | map m => simp only [entryStrs, List.mem_singleton] at hs; rw [hs]; exact kvKey_entry k _ hk
+
+/-- every string of the converted mapping carries one of the mapping's keys: **the mapping spelling `K: V` is indexed
+under `K`, exactly like the list spelling `K=V`** -/
+theorem mapStrs_keys : ∀ (m : KVs), (∀ k ∈ keys m, ∀ c ∈ k.toList, c ≠ '=') → ∀ s ∈ mapStrs m, kvKey s ∈ keys m := by
+  intro m
+  induction m with
+  | nil => intro _ s hs; simp [mapStrs] at hs
+  | cons hd tl ih =>
+    obtain ⟨k, v⟩ := hd
+    intro hk s hs
+    simp only [mapStrs, List.mem_append] at hs
+    simp only [keys, List.map_cons, List.mem_cons]
+    rcases hs with hs | hs
+    · exact .inl (entryStrs_key k v (hk k (by simp [keys])) s hs)
+    · exact .inr (ih (fun k' hk' => hk k' (by simp only [keys, List.map_cons, List.mem_cons]; exact .inr hk')) s hs)
+
+/-- a sequence of strings is always indexable by key (so `kv_later_wins` applies to every list / mapping of scalars) -/
+theorem indexAll_keyValue_strs : ∀ l : List String, indexAll .keyValue (l.map Val.str) = .ok (l.map kvKey) := by
+  intro l
+  induction l with
+  | nil => rfl
+  | cons s r ih => simp only [List.map_cons, indexAll, index, Out.bind, ih]
+
+theorem indexAll_keyValue_mapping (m : KVs) :
+    indexAll .keyValue (seqOf (.map m)) = .ok ((sortStrs (mapStrs m)).map kvKey) := by
+  simp only [seqOf, intoSeq, Option.getD_some]
+  exact indexAll_keyValue_strs _
+
 /-! ## 5. Files and `---` documents are folded the same way -/
 
 theorem bind_assoc' {α β γ : Type} (x : Out α) (f : α → Out β) (g : β → Out γ) :
@@ -691,6 +733,72 @@ example :
     loadDocs .ok (.map [("services", .map [("web", .map [("image", .str "nginx"), ("ports", .seq [.str "80"]), ("dns", .seq [.str "1.1.1.1"])])])])
       [.map .none [("services", .map .none [("web", .map .none [("ports", .scalar .reset .null), ("dns", .seq .override [.scalar .none (.str "9.9.9.9")])])])]]
     = .ok (.map [("services", .map [("web", .map [("image", .str "nginx"), ("dns", .seq [.str "9.9.9.9"])])])]) := by rfl
+
+theorem enforceKVs_keys : ∀ (kvs r : KVs) (p : TPath), enforceKVs kvs p = .ok r → keys r = keys kvs := by
+  intro kvs
+  induction kvs with
+  | nil => intro r p h; simp only [enforceKVs, Out.ok.injEq] at h; subst h; rfl
+  | cons hd tl ih =>
+    obtain ⟨k, e⟩ := hd
+    intro r p h
+    simp only [enforceKVs] at h
+    cases hu : enforce e (next p k) with
+    | ok u =>
+      simp only [hu, Out.bind] at h
+      cases hr : enforceKVs tl p with
+      | ok r' =>
+        simp only [hr, Out.ok.injEq] at h
+        subst h
+        simp only [keys, List.map_cons, List.cons.injEq, true_and]
+        exact ih r' p hr
+      | err e' => simp [hr] at h
+      | panic s => simp [hr] at h
+    | err e' => simp [hu, Out.bind] at h
+    | panic s => simp [hu, Out.bind] at h
+
+theorem root_has_no_rule : ruleAt TPath.root = none := by decide
+
+/-- what one document does to the model at the document root: `Apply`, `mergeMappings`, unicity -/
+theorem docStep_root (a : KVs) (es : List (String × YNode)) (r : Val)
+    (h : docStep .ok (.map a) (.map .none es) = .ok r) :
+    ∃ m r', mergeKVs (depth (.map (decodeKV (resolveMap es TPath.root).1)) + 7)
+                (applyKVs (resolveMap es TPath.root).2 a TPath.root) (decodeKV (resolveMap es TPath.root).1) TPath.root = .ok m ∧
+            enforceKVs m TPath.root = .ok r' ∧ r = .map r' := by
+  simp only [docStep, readDoc, resolve, decode, applyNull, merge, fuelFor] at h
+  rw [show depth (.map (decodeKV (resolveMap es TPath.root).1)) + 8 = (depth (.map (decodeKV (resolveMap es TPath.root).1)) + 7) + 1 from rfl,
+    merge_map_unfold _ _ _ _ root_has_no_rule] at h
+  cases hm : mergeKVs (depth (.map (decodeKV (resolveMap es TPath.root).1)) + 7)
+      (applyKVs (resolveMap es TPath.root).2 a TPath.root) (decodeKV (resolveMap es TPath.root).1) TPath.root with
+  | ok m =>
+    simp only [hm, Out.bind, Unicity.enforceTop, enforce] at h
+    cases hr : enforceKVs m TPath.root with
+    | ok r' =>
+      simp only [hr, Out.ok.injEq] at h
+      exact ⟨m, r', rfl, hr, h.symm⟩
+    | err e => simp [hr] at h
+    | panic s => simp [hr] at h
+  | err e => simp [hm, Out.bind] at h
+  | panic s => simp [hm, Out.bind] at h
+
+/-- **`!reset` at the top level of a document removes the attribute from the loaded model** (whole document step:
+tag resolution, `Apply`, merge, unicity) -/
+theorem docStep_reset_removes (a : KVs) (es : List (String × YNode)) (k : String) (x : YNode) (r : KVs)
+    (ht : x.tag = .reset) (hnd : (es.map Prod.fst).Nodup) (hmem : (k, x) ∈ es)
+    (h : docStep .ok (.map a) (.map .none es) = .ok (.map r)) : lookup k r = none := by
+  obtain ⟨m, r', hm, hr, heq⟩ := docStep_root a es _ h
+  cases heq
+  have := reset_removes _ TPath.root k x ht es hnd hmem _ (fun q hq => hq) a m hm
+  rw [lookup_eq_none_iff] at this ⊢
+  rw [enforceKVs_keys _ _ _ hr]; exact this
+
+/-- **`!override` at the top level of a document: the attribute is the document's value** (up to unicity inside it) -/
+theorem docStep_override_replaces (a : KVs) (es : List (String × YNode)) (k : String) (x : YNode) (r : KVs)
+    (ht : x.tag = .override) (hnd : (es.map Prod.fst).Nodup) (hmem : (k, x) ∈ es)
+    (h : docStep .ok (.map a) (.map .none es) = .ok (.map r)) : k ∈ keys r := by
+  obtain ⟨m, r', hm, hr, heq⟩ := docStep_root a es _ h
+  cases heq
+  have := override_replaces _ TPath.root k x ht es hnd hmem _ (fun q hq => hq) a m hm
+  rw [enforceKVs_keys _ _ _ hr, ← lookup_isSome_iff, this]; rfl
 
 /-! ## 7. Index keys -/
 
